@@ -161,26 +161,30 @@ var exStateEvents = func() []eventSpec {
 var cacheKindOpts = [][]string{{"a.b"}, {"a.*"}, {"a.*", "a.b"}, {"c.d"}, {"*.*"}, {"a.b", "a.b"}}
 var cacheStateOpts = []stateOpt{{false, nil}, {true, map[string]interface{}{"k": 1}}}
 
-var cacheEvents = func() []eventSpec {
+func mkCacheEvents(kinds [][]string) []eventSpec {
 	var r []eventSpec
 	for _, n := range []string{"e", "f"} {
-		for _, k := range [][]string{{"a", "b"}, {"c", "d"}, {"a", "c"}, {"a"}} {
+		for _, k := range kinds {
 			for _, s := range []map[interface{}]interface{}{{}, {"k": 1}} {
 				r = append(r, eventSpec{Name: n, Kind: k, State: s, Scope: -1})
 			}
 		}
 	}
 	return r
-}()
+}
+
+// quick: 3 kinds (12 events), thorough: 4 kinds (16 events)
+var cacheEventsQuick = mkCacheEvents([][]string{{"a", "b"}, {"c", "d"}, {"a", "c"}})
+var cacheEventsFull = mkCacheEvents([][]string{{"a", "b"}, {"c", "d"}, {"a", "c"}, {"a"}})
 
 func nCacheRuleOpts() int { return len(cacheKindOpts) * len(cacheStateOpts) }
 
 func nCacheSets() int { n := nCacheRuleOpts(); return n + n*n }
 
-func nCacheHists() int { n := len(cacheEvents); return n + n*n }
+func nCacheHists(cacheEvents []eventSpec) int { n := len(cacheEvents); return n + n*n }
 
-func exCacheCase(idx int) *caseSpec {
-	nh := nCacheHists()
+func exCacheCase(idx int, cacheEvents []eventSpec) *caseSpec {
+	nh := nCacheHists(cacheEvents)
 	si, hi := idx/nh, idx%nh
 	no := nCacheRuleOpts()
 	var opts []int
